@@ -26,7 +26,8 @@ TECHNIQUE = ('stateful property-based testing (Hypothesis rule-based state '
 RULE = ('Histories of <= 10 steps over a project using find_files (recursive '
         'pattern, exclude, filter_by_platform, extra, cache=False), '
         'directory(), header_directory(include=), a submodule, options.bfg '
-        'and a toolchain file.  Rules: add / remove / rename files and '
+        'and a toolchain file (whose successive states add, change and '
+        'remove settings).  Rules: add / remove / rename files and '
         'directories that match or do not match, comment-only and semantic '
         'edits of build.bfg / options.bfg / submodule script / toolchain '
         'file, build (make or reference ninja).  Non-trivial: >= 2 edits of '
